@@ -20,6 +20,8 @@ import (
 
 	"github.com/segmentio/kafka-go/zzverif/vhook"
 	"github.com/segmentio/kafka-go/zzverif/vsync"
+
+	"verif/engine/racectl"
 )
 
 // Action is an environment event offered at a decision point.
@@ -90,6 +92,7 @@ type Exec struct {
 	Note   string
 
 	mu       sync.Mutex
+	joinMu   sync.Mutex // the only synchronisation between client threads and the body that the race detector sees: thread end -> Run returns
 	gors     map[int64]*gor
 	parked   []*parked
 	wake     chan struct{}
@@ -190,6 +193,14 @@ func (x *Exec) end() {
 	vhook.Uninstall()
 }
 
+// Free runs f (part of a scenario's set-up, on the body's goroutine) without scheduling control: requests made
+// before Run would otherwise wait for broker goroutines that are parked until Run grants them.
+func (x *Exec) Free(f func()) {
+	vhook.Uninstall()
+	defer vhook.Install(&vhook.Hooks{Point: x.point, Note: x.note})
+	f()
+}
+
 // Now is the virtual time since the execution began.
 func (x *Exec) Now() time.Duration { return time.Since(x.start) }
 
@@ -198,7 +209,11 @@ func (x *Exec) Now() time.Duration { return time.Since(x.start) }
 func (x *Exec) SetEnv(f func() []Action) { x.env = f }
 
 // Notify tells the explorer that something observable happened (ends a tick).
+//
+//go:norace
 func (x *Exec) Notify() {
+	racectl.Off()
+	defer racectl.On()
 	select {
 	case x.wake <- struct{}{}:
 	default:
@@ -209,22 +224,33 @@ func (x *Exec) Notify() {
 // have returned.
 func (x *Exec) Go(name string, f func()) {
 	x.threads++
-	go func() {
-		gid := curGID()
-		x.mu.Lock()
-		g := x.gorLocked(gid)
-		g.name = name
-		x.mu.Unlock()
-		defer func() {
-			x.mu.Lock()
-			x.finished++
-			x.mu.Unlock()
-			x.Notify()
-		}()
-		f()
-	}()
+	go x.thread(name, f)
 }
 
+//go:norace
+func (x *Exec) thread(name string, f func()) {
+	racectl.Off()
+	gid := curGID()
+	x.mu.Lock()
+	g := x.gorLocked(gid)
+	g.name = name
+	x.mu.Unlock()
+	racectl.On()
+	defer func() {
+		// what the thread did happens before what the body does after Run (as after a WaitGroup.Wait)
+		x.joinMu.Lock()
+		x.joinMu.Unlock()
+		racectl.Off()
+		x.mu.Lock()
+		x.finished++
+		x.mu.Unlock()
+		racectl.On()
+		x.Notify()
+	}()
+	f()
+}
+
+//go:norace
 func (x *Exec) gorLocked(gid int64) *gor {
 	g := x.gors[gid]
 	if g == nil {
@@ -234,7 +260,10 @@ func (x *Exec) gorLocked(gid int64) *gor {
 	return g
 }
 
+//go:norace
 func (x *Exec) note(k vhook.Kind, obj any) {
+	racectl.Off()
+	defer racectl.On()
 	gid := curGID()
 	x.mu.Lock()
 	if x.active {
@@ -248,10 +277,13 @@ func (x *Exec) note(k vhook.Kind, obj any) {
 	x.mu.Unlock()
 }
 
+//go:norace
 func (x *Exec) point(k vhook.Kind, obj any) {
 	if !x.kinds[k] {
 		return
 	}
+	racectl.Off()
+	defer racectl.On()
 	gid := curGID()
 	if gid == x.rootGID {
 		return
@@ -334,6 +366,7 @@ type choice struct {
 	tick  bool
 }
 
+//go:norace
 func (x *Exec) allDone() bool {
 	x.mu.Lock()
 	defer x.mu.Unlock()
@@ -343,6 +376,16 @@ func (x *Exec) allDone() bool {
 // Run drives the execution until all client threads have returned, the horizon
 // is reached or nothing can happen any more.
 func (x *Exec) Run() Status {
+	st := x.run()
+	x.joinMu.Lock()
+	x.joinMu.Unlock()
+	return st
+}
+
+// The controller itself is visible to the race detector: it acquires from every goroutine (synctest.Wait), but
+// nothing it releases is ever acquired by a goroutine of the program under test, because those take part in the
+// scheduler's, the network's and the brokers' synchronisation with the detector switched off (racectl.Off).
+func (x *Exec) run() Status {
 	for {
 		synctest.Wait()
 		if x.allDone() {
@@ -424,6 +467,8 @@ func (x *Exec) Run() Status {
 // goroutine that is parked at a point outside the scenario's fine-grained files.
 // Everything is thereby serialised deterministically: whatever order the Go
 // runtime wakes goroutines in, they proceed one at a time in canonical order.
+//
+//go:norace
 func (x *Exec) autoGrant() bool {
 	x.mu.Lock()
 	var best *parked
@@ -448,10 +493,16 @@ func (x *Exec) autoGrant() bool {
 
 // canRun: the lock wanted is free, and a spinner (Unlock(m) immediately
 // followed by Lock(m)) waits until something else made progress.
+//
+//go:norace
 func (x *Exec) canRun(p *parked) bool {
 	if p.yield && p.prog == x.progress {
 		return false
 	}
+	// asking a shim mutex about its state takes its internal lock: not something the program under test may
+	// synchronise through
+	racectl.Off()
+	defer racectl.On()
 	switch p.kind {
 	case vhook.KLock:
 		if l, is := p.obj.(vhook.Lockable); is {
@@ -465,6 +516,7 @@ func (x *Exec) canRun(p *parked) bool {
 	return true
 }
 
+//go:norace
 func (x *Exec) unparkLocked(p *parked) {
 	for i, q := range x.parked {
 		if q == p {
@@ -477,6 +529,7 @@ func (x *Exec) unparkLocked(p *parked) {
 	}
 }
 
+//go:norace
 func (x *Exec) tick() {
 	select {
 	case <-x.wake:
@@ -502,6 +555,7 @@ func (x *Exec) tick() {
 	}
 }
 
+//go:norace
 func (x *Exec) site(pc uintptr) string {
 	x.mu.Lock()
 	defer x.mu.Unlock()
@@ -515,6 +569,7 @@ func (x *Exec) gname(g *gor) string {
 	return "g" + strconv.Itoa(g.ord)
 }
 
+//go:norace
 func (x *Exec) enabled() []choice {
 	var cs []choice
 	x.mu.Lock()
@@ -549,6 +604,8 @@ func (x *Exec) enabled() []choice {
 
 // ParkedSites lists where goroutines are parked or (for named threads) that
 // they have not finished; used by hang oracles.
+//
+//go:norace
 func (x *Exec) ParkedSites() []string {
 	x.mu.Lock()
 	defer x.mu.Unlock()
